@@ -1516,6 +1516,108 @@ def _inline_local_closures(mods: dict[str, Module], log: list[str]) -> None:
                     break
 
 
+def _inline_procedure_closures(mods: dict[str, Module], log: list[str]) -> None:
+    """A local closure that is a *procedure* (statements, no value returned) and is only ever called as a statement of the enclosing function
+    (`def adopt(): self._best = x` ... `adopt()`) is read as its body at each call statement. Closures bind late, so the body sees the
+    enclosing names as they are at the call; the closure's own locals are renamed apart."""
+    uid = 0
+    for mod in mods.values():
+        for q, _, fn in _functions_of(mod):
+            for _round in range(4):
+                done = False
+                for holder in [n for n in ast.walk(fn) if isinstance(getattr(n, "body", None), list)]:
+                    for st in list(holder.body):
+                        if not (isinstance(st, ast.FunctionDef) and st is not fn and not st.decorator_list and not st.args.vararg and not st.args.kwarg
+                                and not st.args.kwonlyargs and not st.args.defaults):
+                            continue
+                        body = [b for b in st.body if not (isinstance(b, ast.Expr) and isinstance(b.value, ast.Constant))]
+                        if body and isinstance(body[-1], ast.Return) and body[-1].value is None:
+                            body = body[:-1]
+                        if not body or any(isinstance(x, (ast.Return, ast.Yield, ast.YieldFrom, ast.Await, ast.Nonlocal, ast.Global, ast.FunctionDef, ast.Lambda, ast.ClassDef))
+                                           for b in body for x in ast.walk(b)):
+                            continue
+                        name = st.name
+                        params = [a.arg for a in [*st.args.posonlyargs, *st.args.args]]
+                        occ = [x for x in ast.walk(fn) if isinstance(x, ast.Name) and x.id == name]
+                        defs = [x for x in ast.walk(fn) if isinstance(x, ast.FunctionDef) and x.name == name and x is not fn]
+                        if len(defs) != 1 or any(isinstance(x.ctx, ast.Store) for x in occ) or any(any(x is o for x in ast.walk(st)) for o in occ):
+                            continue
+                        # every occurrence is the callee of an expression statement of fn itself (not of another nested scope)
+                        sites: list[tuple[list, ast.Expr]] = []
+
+                        def scan(stmts: list[ast.stmt]) -> None:
+                            for s_ in stmts:
+                                if isinstance(s_, (ast.FunctionDef, ast.AsyncFunctionDef, ast.ClassDef)):
+                                    continue
+                                if isinstance(s_, ast.Expr) and isinstance(s_.value, ast.Call) and isinstance(s_.value.func, ast.Name) and s_.value.func.id == name:
+                                    sites.append((stmts, s_))
+                                for fld in ("body", "orelse", "finalbody"):
+                                    v = getattr(s_, fld, None)
+                                    if isinstance(v, list) and v and isinstance(v[0], ast.stmt):
+                                        scan(v)
+                                for hd in getattr(s_, "handlers", []) or []:
+                                    scan(hd.body)
+                                for cs in getattr(s_, "cases", []) or []:
+                                    scan(cs.body)
+
+                        scan(fn.body)
+                        if not sites or len(sites) != len(occ):
+                            continue
+                        if any(sum(1 for x in ast.walk(e.value) if isinstance(x, ast.Name) and x.id == name) != 1 for _, e in sites):
+                            continue
+                        ok = True
+                        plans = []
+                        for stmts, e in sites:
+                            c = e.value
+                            if any(isinstance(a, ast.Starred) for a in c.args) or any(k.arg is None or k.arg not in params for k in c.keywords) or len(c.args) > len(params):
+                                ok = False
+                                break
+                            b = dict(zip(params, c.args))
+                            for k in c.keywords:
+                                if k.arg in b:
+                                    ok = False
+                                b[k.arg] = k.value  # type: ignore[index]
+                            if set(b) != set(params):
+                                ok = False
+                            plans.append((stmts, e, b))
+                        if not ok:
+                            continue
+                        own = {x.id for b_ in body for x in ast.walk(b_) if isinstance(x, ast.Name) and isinstance(x.ctx, ast.Store)} - set(params)
+                        for stmts, e, b in plans:
+                            uid += 1
+                            mapping: dict[str, ast.expr] = {}
+                            pre: list[ast.stmt] = []
+                            for p_, a in b.items():
+                                _, stored = _uses(body, p_)
+                                if not stored and _simple(a):
+                                    mapping[p_] = a
+                                else:
+                                    fresh = f"{p_}__{name.strip('_')}{uid}"
+                                    pre.append(ast.copy_location(ast.Assign(targets=[ast.Name(id=fresh, ctx=ast.Store())], value=a), e))
+                                    mapping[p_] = ast.Name(id=fresh, ctx=ast.Load())
+                            for loc_ in own:
+                                mapping[loc_] = ast.Name(id=f"{loc_}__{name.strip('_')}{uid}", ctx=ast.Load())
+                            new_body = [_Subst(mapping).visit(_clone(x)) for x in body]
+                            for x in new_body:
+                                for n_ in ast.walk(x):
+                                    if hasattr(n_, "lineno"):
+                                        n_.lineno = e.lineno
+                                        n_.end_lineno = getattr(e, "end_lineno", e.lineno)
+                            i = next(k for k, y in enumerate(stmts) if y is e)
+                            stmts[i:i + 1] = [*pre, *new_body]
+                        holder.body.remove(st)
+                        if not holder.body:
+                            holder.body.append(ast.Pass())
+                        ast.fix_missing_locations(fn)
+                        log.append(f"{mod.relpath} {q}: local procedure {name}() read in place at its {len(plans)} call statement(s)")
+                        done = True
+                        break
+                    if done:
+                        break
+                if not done:
+                    break
+
+
 def _inline_new_properties(mods: dict[str, Module], inv: dict, log: list[str]) -> None:
     """A property the reference tree does not have, whose getter is one expression over `self` (`return self.current_batch_index == 0`) and which has no
     setter, is read as that expression wherever a method of the class (or of a subclass in the same module) reads it on its own `self`."""
@@ -2237,6 +2339,7 @@ def canonicalise(mods: dict[str, Module]) -> dict:
     align_locals(mods, inv, loc_log)
     _map_to_comprehension(mods, cm_log)
     _inline_local_closures(mods, cm_log)
+    _inline_procedure_closures(mods, cm_log)
     _inline_new_properties(mods, inv, cm_log)
     inl = Inliner(mods, inv)
     inl.run()
